@@ -43,7 +43,7 @@ def build_sources(case, rnd, nvariants, plain_first=True):
     return out
 
 
-def replay(cases, rnd, nvariants=2, chunk=150, want_extra=None, main="a", jobs=None, units=None, prefix=True, dev=False):
+def replay(cases, rnd, nvariants=2, chunk=150, want_extra=None, main="a", jobs=None, units=None, prefix=True, dev=False, incremental=False):
     """cases: [{files, data, tree, steps?, scripts?}] (spec JSON).  Returns a list of records
     {case, variant, sources, problems, panic, warn, bkeys} — one per (case, variant).
     `units` (optional): pre-built [{ci, v, srcs}] instead of fresh concretisations."""
@@ -108,7 +108,8 @@ def replay(cases, rnd, nvariants=2, chunk=150, want_extra=None, main="a", jobs=N
                 ws += warn_by_path.get(u["pre"] + p, [])
             records.append({"case": u["ci"], "variant": u["v"], "sources": u["srcs"], "panic": [], "problems": None,
                             "warn": ws, "vh": r if want_extra else None, "pre": u["pre"]})
-        jobs_.append({"bundle": r["groups"], "fns": concretise.FN_TABLE, "cases": jcases})
+        # incremental: the bundle assembled from per-file objects, each generated when its file was added (want_extra holds "incrgroups")
+        jobs_.append({"bundle": r["incrgroups"] if incremental else r["groups"], "fns": concretise.FN_TABLE, "cases": jcases})
     nres = vlib.run_node("drive_tmpl.js", jobs_, jobs=min(vlib.NCPU, max(1, len(jobs_))), timeout=3000)
     for job, r in zip(jobs_, nres):
         if r["errors"]:
